@@ -29,7 +29,7 @@ RULE = ("generated modules (functions, async functions, methods, nested definiti
         "word-wrap, applied 1-2 times; a case = (module, configuration); distinct by content digest; non-trivial = the "
         "module has at least one def/class")
 REQUIRED_MONITORS = ("doctrans.observed", "ast.erased.compared", "comments.compared", "lines.compared",
-                     "fs.snapshot.compared", "failpoint.injected")
+                     "fs.snapshot.compared", "failpoint.injected", "failpoint.injected.late-stage")
 ASSUMPTIONS = [
     "`erase` drops docstring statements, parameter/return/variable annotations and type comments and nothing else",
     "'# type:' comments are annotations (may be added/removed); every other comment must survive in order",
@@ -163,10 +163,16 @@ def run_case(ctx, P, stream, idx):
         with open(path, "w") as f:
             f.write(src)
         style, ta = r.choice(STYLES), r.random() < 0.5
-        MON.failpoint_at = r.randint(50, 6000)
+        # two stages: anywhere in the conversion, or specifically the late CST write-back stage
+        late = r.random() < 0.6
+        MON.failpoint_at = r.randint(1, 120) if late else r.randint(50, 4000)
         MON.failpoint_exc = RuntimeError("vcdd injected fault")
-        MON.failpoint_filter = lambda code, line: code.co_filename.endswith(("ast_cst_utils.py", "doctrans_utils.py",
-                                                                           "doctrans.py", "cst_utils.py"))
+        if late:
+            MON.failpoint_filter = lambda code, line: code.co_name == "doctransify_cst" or code.co_filename.endswith(
+                "ast_cst_utils.py")
+        else:
+            MON.failpoint_filter = lambda code, line: code.co_filename.endswith(("ast_cst_utils.py", "doctrans_utils.py",
+                                                                               "doctrans.py", "cst_utils.py"))
         outcome, val, _ = MON.run(lambda: cdd.compound.doctrans.doctrans(filename=path, docstring_format=style,
                                                                         type_annotations=ta, no_word_wrap=None),
                                   budget=None, wall_s=120)
@@ -176,6 +182,8 @@ def run_case(ctx, P, stream, idx):
             after = f.read()
         if injected and outcome == "raised":
             P.monitor("failpoint.injected")
+            if late:
+                P.monitor("failpoint.injected.late-stage")
             if after != src:
                 P.deviation("doctrans.raised-but-file-changed|injected", "an error raised midway left the file changed",
                             {"stream": stream, "idx": idx, "before": src, "after": after, "style": style, "ta": ta})
